@@ -3,6 +3,7 @@ HOOKS = {
     "enable": "cargo build -p moc-set --features verif_hooks (only C16 needs it)",
     "baseline_off_cmd": "cd /repo && cargo test --workspace --no-fail-fast --offline",
     "source_commits": [],
+    # fix commits in /repo (unguarded, see known_findings.json): 1c108d1 (C01 lazy minus)
     "add_only": True,
 }
 NOTES = ("Every check is `./check Cxx --tier quick|thorough`: regenerates Model/Params.lean from the source constants, rebuilds and "
